@@ -122,7 +122,7 @@ def run(tier, seed, flavour="plain", prop="C10"):
     paths = core.build(targets(flavour))
     expected_paths, vq, pq, problems = harvest()
     res = core.run_sharded([{"name": "c10_direction", "binary": paths["c10_direction"], "nshards": core.NCPU, "out": od,
-                             "args": ["--seed", str(seed), "--tier", tier] + core.deep(tier, cases=960000),
+                             "args": ["--seed", str(seed), "--tier", tier] + core.deep(tier, cases=960000) + core.boost(tier, flavour, cases=48000),
                              "env": core.SAN_ENV if flavour == "san" else None}], timeout=3600)
     V.absorb(res)
     m = core.merge_summaries(res)
